@@ -776,7 +776,7 @@ def eam_grid(nmax=24):
 
 
 @st.composite
-def eam_model(draw, kind="eam", n_min=1, n_max=4, depth=1, pycallables=False, max_customs=1, pool=None):
+def eam_model(draw, kind="eam", n_min=1, n_max=4, depth=1, pycallables=False, max_customs=1, pool=None, near_copies=False):
     """EAM ("eam"), Finnis-Sinclair ("fs") or ADP ("adp") model.
     {"kind", "env", "elements": [...] (embedding declaration order), "embed": [[A, pd]],
      "density": [[A, pd]] | "density_fs": [[A, B, pd]], "pair": [[A, B, pd]],
@@ -792,7 +792,11 @@ def eam_model(draw, kind="eam", n_min=1, n_max=4, depth=1, pycallables=False, ma
     body0 = potdef(0, customs, [], max_ranges=1).map(lambda d: d["ranges"][0]["body"])
 
     def pot():
-        if pool and draw(st.integers(0, 3)) == 0:
+        if pool and near_copies and draw(st.integers(0, 2)) > 0:
+            # most functions of the model are an earlier one with a range boundary moved or one parameter changed
+            pd = vary(draw, draw(st.sampled_from(pool)), body0, customs=customs,
+                      how=draw(st.sampled_from(["shift_start", "first_start", "flip_marker", "param_twin", "add_range"])))
+        elif pool and draw(st.integers(0, 3)) == 0:
             pd = vary(draw, draw(st.sampled_from(pool)), body0)
         else:
             pd = draw(st.one_of(p0, p0, pdraw))
